@@ -185,6 +185,7 @@ fn gen_cfg(env: &Env, src: &mut Src<'_>, malicious: Option<bool>) -> (ShufCfg, V
         assign,
         timeout: Duration::from_secs(120),
         tamper: None,
+        more_tampers: vec![],
         stop_on_error_of: 0b111,
     };
     (ShufCfg { inner, row }, vals, labels)
